@@ -140,10 +140,10 @@ FAMILIES["stream"] = {
 }
 
 FAMILIES["probe"] = {
-    "name": "probe", "props": ["C19", "C03"], "models": "Probe.v",
+    "name": "probe", "props": ["C19", "C03", "C13"], "models": "Probe.v",
     "harness": COMMON + ["zz_vf_wire_test.go", "zz_vf_sites_test.go", "zz_vf_probe_test.go"], "test": "TestVfProbe",
     "n": {"quick": 800, "thorough": 150000}, "no_shrink": True,
-    "codes": [(400, 408, ["C19"]), (409, 409, ["C03", "C19"])],
+    "codes": [(400, 408, ["C19"]), (409, 409, ["C03", "C19"]), (410, 411, ["C13", "C19"])],
     "code_names": {1: "undecodable case",
                    400: "C19: health score left [0, max-1]", 401: "C19: pending-probe record still registered after its deadline",
                    402: "C19: probe verdict differs from 'a matching ack arrived before the deadline (or the TCP fallback round-tripped)'",
@@ -151,7 +151,9 @@ FAMILIES["probe"] = {
                    404: "C19: relayed ack does not carry the requester's sequence number", 405: "C19: relay reused the requester's sequence number",
                    406: "C19: relay sent more than one ack / nack, or both", 407: "C19: relay outcome differs from the model",
                    408: "C19: an ack / nack for a number nobody awaits a nack for made the packet handler panic",
-                   409: "C03/C19: one probe kept the sequential probe loop busy for longer than its awareness-scaled interval (a dial / wait that ignores the probe deadline)"},
+                   409: "C03/C19: one probe kept the sequential probe loop busy for longer than its awareness-scaled interval (a dial / wait that ignores the probe deadline)",
+                   410: "C13/C19: after the acks / nacks of the case the packet listener no longer takes packets (a ping put on the packet channel got no ack: a handler blocked the listener for good)",
+                   411: "C13/C19: Shutdown of the node did not return"},
     "assumptions": ["arrivals never coincide with the probe timeout or deadline (odd microsecond offsets): equal-instant ordering is scheduler dependent",
                     "random peer selection (kRandomNodes) enters through what the transport observed"],
 }
